@@ -187,6 +187,8 @@ type Wire struct {
 	Sent     []Msg // as written by the senders
 	Passed   []Msg // as handed to the receivers
 	WriteErr [2]error
+	// failedWrites counts writes that were answered with WriteErr, per direction
+	failedWrites [2]int
 	// Gate, if set, is called (outside the wire lock) before a message is processed;
 	// it may block to order messages across several wires.
 	Gate func(dir Dir, idx int, msg []byte)
@@ -292,6 +294,7 @@ func (w *Wire) peerPipe(d Dir) *pipe {
 func (w *Wire) onWrite(d Dir, b []byte) error {
 	w.mu.Lock()
 	if err := w.WriteErr[d]; err != nil {
+		w.failedWrites[d]++
 		w.mu.Unlock()
 		return err
 	}
@@ -360,6 +363,21 @@ func (w *Wire) Break(err error) {
 	w.mu.Lock()
 	w.WriteErr[0], w.WriteErr[1] = err, err
 	w.mu.Unlock()
+}
+
+// BreakWrites makes every write on the connection fail from now on while reads keep waiting: the far end has
+// vanished without a word (no reset, no FIN); the kernel reports it to whoever writes next.
+func (w *Wire) BreakWrites(err error) {
+	w.mu.Lock()
+	w.WriteErr[0], w.WriteErr[1] = err, err
+	w.mu.Unlock()
+}
+
+// FailedWrites returns how many writes of direction d's sender were answered with an I/O error.
+func (w *Wire) FailedWrites(d Dir) int {
+	w.mu.Lock()
+	defer w.mu.Unlock()
+	return w.failedWrites[d]
 }
 
 // SentCount returns how many messages the sender of direction d wrote.
